@@ -3,6 +3,7 @@
 package harness
 
 import (
+	"math"
 	"sort"
 	"strings"
 	"testing"
@@ -157,7 +158,7 @@ func (e *c13Env) state(ctx sdk.Context) string {
 	sort.Slice(lockers, func(i, j int) bool { return lockers[i].LockerId < lockers[j].LockerId })
 	var ls []string
 	for _, l := range lockers {
-		ls = append(ls, u(l.LockerId)+":"+u(uint64(e.ownerIdx(l.Depositor)))+":"+u(l.AppId)+":"+u(l.AssetDepositId)+":"+l.NetBalance.String()+":"+l.ReturnsAccumulated.String())
+		ls = append(ls, u(l.LockerId)+":"+u(uint64(e.ownerIdx(l.Depositor)))+":"+u(l.AppId)+":"+u(l.AssetDepositId)+":"+l.NetBalance.String()+":"+l.ReturnsAccumulated.String()+":"+i64(l.BlockHeight)+":"+i64(l.BlockTime.Unix()))
 	}
 	lks := app.LockerKeeper.GetAllLockerLookupTable(ctx)
 	sort.Slice(lks, func(i, j int) bool {
@@ -195,7 +196,84 @@ func (e *c13Env) state(ctx sdk.Context) string {
 			}
 		}
 	}
-	return "L=" + strings.Join(ls, ";") + "|K=" + strings.Join(ks, ";") + "|F=" + strings.Join(fs, ";") + "|B=" + strings.Join(bs, ";")
+	// reward trackers (key: locker id, app), collector lookup table, internal-reward whitelist
+	trs := app.Rewardskeeper.GetAllLockerRewardTracker(ctx)
+	sort.Slice(trs, func(i, j int) bool {
+		if trs[i].LockerId != trs[j].LockerId {
+			return trs[i].LockerId < trs[j].LockerId
+		}
+		return trs[i].AppMappingId < trs[j].AppMappingId
+	})
+	var ts []string
+	for _, t := range trs {
+		if !t.RewardsAccumulated.IsZero() {
+			ts = append(ts, u(t.LockerId)+":"+u(t.AppMappingId)+":"+t.RewardsAccumulated.BigInt().String())
+		}
+	}
+	var cs, ws []string
+	for appID := uint64(0); appID <= 3; appID++ {
+		for asset := uint64(0); asset <= 5; asset++ {
+			if c, found := app.CollectorKeeper.GetCollectorLookupTable(ctx, appID, asset); found {
+				cs = append(cs, c13CL(c.AppId, c.CollectorAssetId, c.LockerSavingRate, c.BlockHeight, c.BlockTime.Unix(), c.SurplusThreshold, c.DebtThreshold, c.LotSize, c.DebtLotSize))
+			}
+			if _, found := app.Rewardskeeper.GetReward(ctx, appID, asset); found {
+				ws = append(ws, u(appID)+":"+u(asset))
+			}
+		}
+	}
+	return "L=" + strings.Join(ls, ";") + "|K=" + strings.Join(ks, ";") + "|F=" + strings.Join(fs, ";") + "|B=" + strings.Join(bs, ";") +
+		"|T=" + strings.Join(ts, ";") + "|C=" + strings.Join(cs, ";") + "|W=" + strings.Join(ws, ";")
+}
+
+func c13CL(appID, asset uint64, lsr sdk.Dec, bh, bt int64, sthr, dthr, lot, dlot sdk.Int) string {
+	return u(appID) + ":" + u(asset) + ":" + lsr.BigInt().String() + ":" + i64(bh) + ":" + i64(bt) + ":" + sthr.String() + ":" + dthr.String() + ":" + lot.String() + ":" + dlot.String()
+}
+
+// collkField prints the collector lookup table of the sequence for the lk.begin line.
+func (e *c13Env) collkField(ctx sdk.Context) string {
+	st := e.state(ctx)
+	i := strings.Index(st, "|C=")
+	j := strings.Index(st, "|W=")
+	return "collk=" + st[i+3:j]
+}
+
+func c13T(ctx sdk.Context) (string, string) { return i64(ctx.BlockTime().Unix()), i64(ctx.BlockHeight()) }
+
+const c13Year = 31557600
+
+// powField mirrors the two lines of CalculationOfRewards that produce the arguments of its one math.Pow call and performs that
+// call: `xbits:ybits:pbits`. The Lean model recomputes both arguments from ITS state (rate, time stamps) and the driver reports a
+// DIFF when they differ; the result is the only input of the model's reward computation.
+func c13Pow(lsr sdk.Dec, secs int64) string {
+	if secs < 0 {
+		return "-"
+	}
+	x := sdk.OneDec().Add(lsr).MustFloat64()
+	y := sdk.NewDec(secs).QuoInt64(c13Year).MustFloat64()
+	p := math.Pow(x, y)
+	return u(math.Float64bits(x)) + ":" + u(math.Float64bits(y)) + ":" + u(math.Float64bits(p))
+}
+
+// powField: the pow call CalculateLockerRewards is going to make for this locker (rate of the collector entry; time since the
+// locker's stamp, or the collector entry's stamp when the locker's block height is 0).
+func (e *c13Env) powField(ctx sdk.Context, appID, assetID, lockerID uint64, lsrOverride *sdk.Dec) string {
+	l, found := e.app.LockerKeeper.GetLocker(ctx, lockerID)
+	if !found {
+		return "-"
+	}
+	cl, found := e.app.CollectorKeeper.GetCollectorLookupTable(ctx, appID, assetID)
+	if !found {
+		return "-"
+	}
+	rate := cl.LockerSavingRate
+	if lsrOverride != nil {
+		rate = *lsrOverride
+	}
+	since := l.BlockTime.Unix()
+	if l.BlockHeight == 0 {
+		since = cl.BlockTime.Unix()
+	}
+	return c13Pow(rate, ctx.BlockTime().Unix()-since)
 }
 
 // deliver re-enacts baseapp.runMsgs for one message.
@@ -349,7 +427,7 @@ func (e *c13Env) v2Sequence(base sdk.Context, mode string, lot, debtLot, funded 
 	app.NewaucKeeper.SetAuctionParams(ctx, auctionsV2types.AuctionParams{AuctionDurationSeconds: 3600, Step: sdk.MustNewDecFromStr("0.1"),
 		WithdrawalFee: sdk.ZeroDec(), ClosingFee: sdk.ZeroDec(), MinUsdValueLeft: 100000, BidFactor: sdk.MustNewDecFromStr("0.1"),
 		LiquidationPenalty: sdk.MustNewDecFromStr("0.1"), AuctionBonus: sdk.ZeroDec()})
-	tr.Line("lk.begin", "assets=1,2,3,4", "apps=1,2", c13CollkField([][2]uint64{{1, 2}}))
+	tr.Line("lk.begin", "assets=1,2,3,4", "apps=1,2", e.collkField(ctx))
 	tr.Count("seq:v2" + mode)
 	bidder := e.users[0]
 	e.mint(ctx, bidder, "", c13AssetHarbor, sdk.NewInt(1e12))
@@ -441,7 +519,7 @@ func (e *c13Env) mainSequence(base sdk.Context, nops int) {
 			collk = append(collk, k)
 		}
 	}
-	tr.Line("lk.begin", "assets=1,2,3,4", "apps=1,2", c13CollkField(collk))
+	tr.Line("lk.begin", "assets=1,2,3,4", "apps=1,2", e.collkField(ctx))
 	tr.Count("seq:main")
 	apps := []uint64{1, 2}
 	lassets := []uint64{c13AssetCmst, c13AssetAtom}
@@ -458,8 +536,10 @@ func (e *c13Env) mainSequence(base sdk.Context, nops int) {
 		})
 		tr.Count("whitelist:" + out)
 		tr.Line("lk.whitelist", u(appID), u(asset), out, e.state(ctx))
-		if out == "ok" && rng.Chance(85) {
-			_ = app.Rewardskeeper.WhitelistAssetForInternalRewards(ctx, appID, asset)
+		if rng.Chance(85) {
+			out := e.atomic(ctx, func(cc sdk.Context) error { return app.Rewardskeeper.WhitelistAssetForInternalRewards(cc, appID, asset) })
+			tr.Count("wlreward:" + out)
+			tr.Line("lk.wlreward", u(appID), u(asset), out, e.state(ctx))
 		}
 	}
 	for _, a := range apps {
@@ -543,7 +623,8 @@ func (e *c13Env) mainSequence(base sdk.Context, nops int) {
 			msg := lockertypes.NewMsgCreateLockerRequest(e.users[ui].String(), amt, as, a)
 			out := e.deliver(ctx, msg)
 			tr.Count("create:" + out)
-			tr.Line("lk.create", u(uint64(ui)), u(a), u(as), amt.String(), out, e.state(ctx))
+			t1, t2 := c13T(ctx)
+			tr.Line("lk.create", t1, t2, u(uint64(ui)), u(a), u(as), amt.String(), out, e.state(ctx))
 		case p < 36: // deposit
 			l, ok := pickLocker()
 			if !ok {
@@ -567,6 +648,7 @@ func (e *c13Env) mainSequence(base sdk.Context, nops int) {
 			bal := e.balOf(ctx, e.users[ui], as)
 			amt := e.boundary(bal)
 			rw := e.predictRw(ctx, a, as, id, nil, false)
+			pw := e.powField(ctx, a, as, id, nil)
 			t0 := e.totalRewards(ctx, a, as)
 			out := e.deliver(ctx, lockertypes.NewMsgDepositAssetRequest(e.users[ui].String(), id, amt, as, a))
 			obs := "-"
@@ -575,7 +657,8 @@ func (e *c13Env) mainSequence(base sdk.Context, nops int) {
 			}
 			tr.Count("deposit:" + out)
 			tr.Count("rw:" + strings.SplitN(rw, ":", 2)[0])
-			tr.Line("lk.deposit", u(uint64(ui)), u(a), u(as), u(id), amt.String(), rw, obs, out, e.state(ctx))
+			t1, t2 := c13T(ctx)
+			tr.Line("lk.deposit", t1, t2, u(uint64(ui)), u(a), u(as), u(id), amt.String(), pw, obs, out, e.state(ctx))
 		case p < 51: // withdraw
 			l, ok := pickLocker()
 			if !ok {
@@ -595,6 +678,7 @@ func (e *c13Env) mainSequence(base sdk.Context, nops int) {
 			}
 			amt := e.boundary(l.NetBalance)
 			rw := e.predictRw(ctx, a, as, id, nil, false)
+			pw := e.powField(ctx, a, as, id, nil)
 			t0 := e.totalRewards(ctx, a, as)
 			out := e.deliver(ctx, lockertypes.NewMsgWithdrawAssetRequest(e.users[ui].String(), id, amt, as, a))
 			obs := "-"
@@ -603,7 +687,8 @@ func (e *c13Env) mainSequence(base sdk.Context, nops int) {
 			}
 			tr.Count("withdraw:" + out)
 			tr.Count("rw:" + strings.SplitN(rw, ":", 2)[0])
-			tr.Line("lk.withdraw", u(uint64(ui)), u(a), u(as), u(id), amt.String(), rw, obs, out, e.state(ctx))
+			t1, t2 := c13T(ctx)
+			tr.Line("lk.withdraw", t1, t2, u(uint64(ui)), u(a), u(as), u(id), amt.String(), pw, obs, out, e.state(ctx))
 		case p < 57: // close
 			l, ok := pickLocker()
 			if !ok {
@@ -620,6 +705,7 @@ func (e *c13Env) mainSequence(base sdk.Context, nops int) {
 				id = 0
 			}
 			rw := e.predictRw(ctx, a, as, id, nil, false)
+			pw := e.powField(ctx, a, as, id, nil)
 			t0 := e.totalRewards(ctx, a, as)
 			out := e.deliver(ctx, lockertypes.NewMsgCloseLockerRequest(e.users[ui].String(), a, as, id))
 			obs := "-"
@@ -628,7 +714,8 @@ func (e *c13Env) mainSequence(base sdk.Context, nops int) {
 			}
 			tr.Count("close:" + out)
 			tr.Count("rw:" + strings.SplitN(rw, ":", 2)[0])
-			tr.Line("lk.close", u(uint64(ui)), u(a), u(as), u(id), rw, obs, out, e.state(ctx))
+			t1, t2 := c13T(ctx)
+			tr.Line("lk.close", t1, t2, u(uint64(ui)), u(a), u(as), u(id), pw, obs, out, e.state(ctx))
 		case p < 64: // reward calculation message (anyone may send it)
 			l, ok := pickLocker()
 			if !ok {
@@ -642,6 +729,7 @@ func (e *c13Env) mainSequence(base sdk.Context, nops int) {
 			if a == l.AppId {
 				rw = e.predictRw(ctx, a, l.AssetDepositId, id, nil, false)
 			}
+			pw := e.powField(ctx, a, l.AssetDepositId, id, nil)
 			t0 := e.totalRewards(ctx, a, l.AssetDepositId)
 			out := e.deliver(ctx, lockertypes.NewMsgLockerRewardCalcRequest(e.users[rng.Intn(len(e.users))].String(), a, id))
 			obs := "-"
@@ -650,7 +738,8 @@ func (e *c13Env) mainSequence(base sdk.Context, nops int) {
 			}
 			tr.Count("rewardcalc:" + out)
 			tr.Count("rw:" + strings.SplitN(rw, ":", 2)[0])
-			tr.Line("lk.rewardcalc", u(a), u(id), rw, obs, out, e.state(ctx))
+			t1, t2 := c13T(ctx)
+			tr.Line("lk.rewardcalc", t1, t2, u(a), u(id), pw, obs, out, e.state(ctx))
 		case p < 68: // saving-rate change (governance contract): LockerIterateRewards
 			if len(collk) == 0 {
 				continue
@@ -661,23 +750,32 @@ func (e *c13Env) mainSequence(base sdk.Context, nops int) {
 			_, rfound := app.Rewardskeeper.GetReward(ctx, k[0], k[1])
 			iter := rfound && (newRate.IsZero() || (cl.LockerSavingRate.IsPositive() && newRate.IsPositive()))
 			var rws []string
-			if iter {
+			{
 				lk, _ := app.LockerKeeper.GetLockerLookupTable(ctx, k[0], k[1])
 				old := cl.LockerSavingRate
 				for _, id := range lk.LockerIds {
-					rws = append(rws, e.predictRw(ctx, k[0], k[1], id, &old, true))
+					rws = append(rws, e.powField(ctx, k[0], k[1], id, &old))
 				}
+			}
+			newCl := cl
+			if rng.Chance(30) { // thresholds and lot sizes may change with the same message
+				newCl.SurplusThreshold = sdk.NewInt(int64(1000000 + rng.Intn(20000000)))
+				newCl.DebtThreshold = sdk.NewInt(int64(rng.Intn(6000000)))
+				newCl.LotSize = sdk.NewInt(int64(1000 + rng.Intn(500000)))
+				newCl.DebtLotSize = sdk.NewInt(int64(1000 + rng.Intn(5000000)))
 			}
 			out := e.atomic(ctx, func(cc sdk.Context) error {
 				return ck.WasmUpdateCollectorLookupTable(cc, &bindings.MsgUpdateCollectorLookupTable{AppID: k[0], AssetID: k[1],
-					DebtThreshold: cl.DebtThreshold, SurplusThreshold: cl.SurplusThreshold, LotSize: cl.LotSize, DebtLotSize: cl.DebtLotSize,
+					DebtThreshold: newCl.DebtThreshold, SurplusThreshold: newCl.SurplusThreshold, LotSize: newCl.LotSize, DebtLotSize: newCl.DebtLotSize,
 					BidFactor: cl.BidFactor, LSR: newRate})
 			})
 			tr.Count("lsr:" + out)
 			if iter {
 				tr.Count("lsr:iterated")
 			}
-			tr.Line("lk.lsr", u(k[0]), u(k[1]), strings.Join(rws, ","), out, e.state(ctx))
+			t1, t2 := c13T(ctx)
+			tr.Line("lk.lsr", t1, t2, u(k[0]), u(k[1]), newRate.BigInt().String(), newCl.SurplusThreshold.String(), newCl.DebtThreshold.String(),
+				newCl.LotSize.String(), newCl.DebtLotSize.String(), strings.Join(rws, ","), out, e.state(ctx))
 		case p < 80: // fee inflow from a real vault message (asset 2 only)
 			b := e.borrowers[rng.Intn(len(e.borrowers))]
 			appID := apps[rng.Intn(2)]
